@@ -39,6 +39,8 @@ pub struct HelloCase {
     pub extra: Vec<String>,
     pub sid: Option<String>,
     pub sid_dup: bool,
+    /// a second `<session-id>` element with its own text, after the first
+    pub sid2: Option<String>,
     pub prefix: bool,
     pub sid_first: bool,
     pub comments: u8, // bit0: before capabilities, bit1: between, bit2: after
@@ -75,7 +77,8 @@ impl HelloCase {
             None => String::new(),
             Some(v) => {
                 let one = format!("<{p}session-id>{v}</{p}session-id>");
-                if self.sid_dup { format!("{one}{one}") } else { one }
+                let two = self.sid2.as_ref().map(|v| format!("<{p}session-id>{v}</{p}session-id>")).unwrap_or_default();
+                if self.sid_dup { format!("{one}{one}{two}") } else { format!("{one}{two}") }
             }
         };
         if self.comments & 1 != 0 {
@@ -109,7 +112,7 @@ impl HelloCase {
     }
     /// descriptor for the spec op: shape, sid text, server bases, whether all capability URIs are valid
     pub fn descr(&self) -> String {
-        let shape_ok = !self.no_caps && self.sid.is_some() && !self.sid_dup && !self.junk;
+        let shape_ok = !self.no_caps && self.sid.is_some() && !self.sid_dup && self.sid2.is_none() && !self.junk;
         let uris_ok = self.extra.iter().all(|e| iri_string::types::UriStr::new(e).is_ok());
         format!(
             "shape={} uris={} sid={} bases={}",
@@ -148,7 +151,7 @@ pub fn gen(opts: &Opts, rng: &mut Rng) -> Vec<HelloCase> {
         for s in &sids {
             for prefix in [false, true] {
                 out.push(HelloCase {
-                    bases: b.clone(), extra: vec![], sid: s.map(|x| x.to_string()), sid_dup: false, prefix,
+                    bases: b.clone(), extra: vec![], sid: s.map(|x| x.to_string()), sid_dup: false, sid2: None, prefix,
                     sid_first: false, comments: 0, decl: false, junk: false, no_caps: false, trailer: true,
                 });
             }
@@ -159,9 +162,20 @@ pub fn gen(opts: &Opts, rng: &mut Rng) -> Vec<HelloCase> {
         for e in &extras {
             for v in 0..8u8 {
                 out.push(HelloCase {
-                    bases: b.clone(), extra: e.clone(), sid: Some("77".into()), sid_dup: v == 5, prefix: v & 1 != 0,
+                    bases: b.clone(), extra: e.clone(), sid: Some("77".into()), sid_dup: v == 5, sid2: None, prefix: v & 1 != 0,
                     sid_first: v & 2 != 0, comments: if v == 3 { 7 } else if v == 4 { 2 } else { 0 }, decl: v == 6,
                     junk: v == 7, no_caps: false, trailer: v != 2,
+                });
+            }
+        }
+    }
+    // two session-id elements with different texts, every (first, second) pair: never a valid hello
+    for a in sids.iter().flatten() {
+        for b in sids.iter().flatten() {
+            for sid_first in [false, true] {
+                out.push(HelloCase {
+                    bases: vec![mt::CAP_BASE10], extra: vec![], sid: Some(a.to_string()), sid_dup: false, sid2: Some(b.to_string()),
+                    prefix: false, sid_first, comments: 0, decl: false, junk: false, no_caps: false, trailer: true,
                 });
             }
         }
@@ -173,6 +187,7 @@ pub fn gen(opts: &Opts, rng: &mut Rng) -> Vec<HelloCase> {
             extra: rng.pick(&extras).clone(),
             sid: rng.pick(&sids).map(|x| x.to_string()),
             sid_dup: rng.chance(1, 12),
+            sid2: if rng.chance(1, 10) { rng.pick(&sids).map(|x| x.to_string()) } else { None },
             prefix: rng.chance(1, 2),
             sid_first: rng.chance(1, 3),
             comments: if rng.chance(1, 3) { rng.below(8) as u8 } else { 0 },
